@@ -81,4 +81,23 @@ theorem deploy_at_most_once_while_live_chain :
       (initWith [.deploy 2, .deploy 1]) = true := by
   decide +kernel
 
+/-- `deploy(W)` has completed (it deploys `D`, then `W`) -/
+def deployedWD (c : Chain.Cfg) : Chain.St :=
+  (Chain.runActs c chainVWD (initWith [.deploy 1]) [.run 0, .callRet 0 true, .callRet 0 true]).getD {}
+
+/-- **open finding — false for the code as it is** (`codeChain`, all four repairs): `W` over `D` deployed; `undeploy(W)` (task 1) and
+    `deploy(W)` (task 2) concurrently. The undeploy removes `W` from the maps and awaits the old connector's `undeploy()`; the deploy
+    registers `W` again, adds `W` to `D`'s dependants and awaits the new connector's `deploy()`; the undeploy resumes and its clean-up
+    loop — which runs AFTER the await — removes `W` from `D`'s dependants (the edge of the NEW `W`), finds them empty and undeploys
+    `D`; the new `W` then completes its deploy on top of an undeployed `D`. (When `D` has another dependant the cascade does not fire
+    and the next `undeploy(D)` / `undeploy_all` does it — the schedule the thorough tier found on the real manager.) -/
+theorem redeploy_edge_stripped_by_finishing_undeploy_false :
+    (match Chain.runActs codeChain chainVWD (spawn (spawn (deployedWD codeChain) (.undeploy 1)) (.deploy 1))
+        [.run 1, .run 2, .callRet 1 true, .callRet 2 true] with
+     | some s => underLiveWrapper chainVWD s && liveNames s == [1] &&
+         calls s == [.connDeployEnter 0, .connDeployExit 0, .connDeployEnter 1, .connDeployExit 1, .connUndeployEnter 1,
+                     .connDeployEnter 1, .connUndeployExit 1, .connUndeployEnter 0, .connDeployExit 1]
+     | none => false) = true := by
+  decide +kernel
+
 end SFV.C26.Chains
